@@ -276,7 +276,8 @@ Definition after_consumer (ss : sstate) (rec : srecord) (rest : list byte) : ste
 
 Definition session_step (ss : sstate) (e : senv) (bs : list byte) : step_result :=
   let (ss1, ids) := do_register ss e in
-  match read_iter maxbuf cfg (ss_st ss1) (mkEnv ids (se_beh e)) bs with
+  match read_iter maxbuf cfg (ss_st ss1)
+                  (mkEnv ids (se_beh e) (negb (close_wait_only_if_sent fl) || ss_sent_close ss1)) bs with
   | ItEnd en _ => SsStop [] (end_of ss1 en)
   | ItLast d => SsStop [mkRec d CoNone (d_alloc d)] (end_of ss1 EndShortDiscard)
   | ItNext d st' rest =>
